@@ -21,8 +21,25 @@ const S: f64 = 1e4;
 fn f<F: Float>(v: F) -> f64 {
     v.to_f64().unwrap()
 }
+thread_local! {
+    /// number of logged values that are not finite or too large for the fixed-point encoding (logged as 0)
+    static BAD: std::cell::Cell<i64> = std::cell::Cell::new(0);
+}
+fn take_bad() -> i64 {
+    BAD.with(|b| b.replace(0))
+}
+/// fixed point at S; a value without an integer encoding is counted and logged as 0
+fn fxi(v: f64) -> Value {
+    let x = fx(v, S);
+    if x.is_i64() {
+        x
+    } else {
+        BAD.with(|b| b.set(b.get() + 1));
+        json!(0)
+    }
+}
 fn fxs<F: Float>(vs: &[F]) -> Value {
-    Value::Array(vs.iter().map(|v| fx(f(*v), S)).collect())
+    Value::Array(vs.iter().map(|v| fxi(f(*v))).collect())
 }
 
 fn method_of<F: Float>(m: &Value) -> KernelMethod<F> {
@@ -71,7 +88,7 @@ fn contents<F: Float, K1: Inner<Elem = F>, K2: Inner<Elem = F>>(
             for i in 0..n {
                 for j in 0..n {
                     pat[i][j] = 1;
-                    val[i][j] = fx(f(dense_get(m, i, j)), S);
+                    val[i][j] = fxi(f(dense_get(m, i, j)));
                 }
             }
             true
@@ -83,7 +100,7 @@ fn contents<F: Float, K1: Inner<Elem = F>, K2: Inner<Elem = F>>(
                         dup += 1;
                     }
                     pat[i][j] = 1;
-                    val[i][j] = fx(f(v), S);
+                    val[i][j] = fxi(f(v));
                 } else {
                     dup += 1000;
                 }
@@ -139,6 +156,7 @@ fn owned_event<F: Float>(form: &str, nn: &str, ft: &str, kern: &Kernel<F>, rhs: 
             ev.insert("views".into(), json!(false));
         }
     }
+    ev.insert("bad".into(), json!(take_bad()));
     Value::Object(ev)
 }
 
@@ -167,6 +185,7 @@ fn view_event<F: Float>(nn: &str, ft: &str, kern: &Kernel<F>, rhs: &Array2<F>) -
     ev.insert("hastgt".into(), json!(false));
     ev.insert("tgt".into(), json!([]));
     views(&kv, rhs, &mut ev);
+    ev.insert("bad".into(), json!(take_bad()));
     Value::Object(ev)
 }
 
@@ -336,7 +355,8 @@ fn hier_case(inp: &Value) -> Vec<Value> {
     let mut out = vec![];
     // the upper triangle handed to the linkage routine, as the kernel reports it
     let base: Kernel<f64> = base_kernel(inp);
-    out.push(json!({"ev": "base", "size": base.size(), "ut": fxs(&base.to_upper_triangle())}));
+    let ut = fxs(&base.to_upper_triangle());
+    out.push(json!({"ev": "base", "size": base.size(), "ut": ut, "bad": take_bad()}));
     hier_typed::<f64>(inp, "f64", &mut out);
     if inp.get("f32").and_then(|x| x.as_bool()).unwrap_or(false) {
         hier_typed::<f32>(inp, "f32", &mut out);
